@@ -18,12 +18,13 @@ from lib import common, recog, dtpipe, dtcorpus, periodcorr
 from lib import durationcorr
 from lib import dtperiodcorr
 from lib import period2corr
+from lib import zhcorr2
 from lib.common import cps, uncps
 
 PROP = 'C10'
 LEVEL = 'proof'
 PROPS_MODULES = ['RTV.Props.C10', 'RTV.Props.C10Periods', 'RTV.Props.C10Durations', 'RTV.Props.C10DtPeriod',
-                 'RTV.Props.C10Periods2']
+                 'RTV.Props.C10Periods2', 'RTV.Props.C10Zh']
 GEN = ['chartables', 'durationmaps']
 REQUIRED_THEOREMS = ['duration_timex_reads_back', 'duration_value_matches_timex', 'luis_time_span_inverse',
                      'between_dates_consistent', 'between_times_consistent', 'unit_tables_consistent',
@@ -46,7 +47,12 @@ REQUIRED_THEOREMS = ['duration_timex_reads_back', 'duration_value_matches_timex'
                      # Props/C10Periods2: DateContext, year-context merges, complex periods, parse order, decades, month/year durations
                      'duration_past_exact', 'duration_next_exact', 'duration_in_exact', 'set_date_with_context_valid',
                      'sync_year_valid', 'merge_year_context_ordered', 'first_success_spec', 'order_observable_witness',
-                     'complex_months_year_context', 'complex_witnesses', 'decade_unported_never_succeeds', 'decade_fixed_century']
+                     'complex_months_year_context', 'complex_witnesses', 'decade_unported_never_succeeds', 'decade_fixed_century',
+                     # Props/C10Zh: the Chinese time-period / date-time-period / set / holiday parsers
+                     'zh_time_period_values', 'zh_time_period_triple_ok', 'zh_right_end_rule', 'zh_merge_date_period_ok',
+                     'zh_cross_midnight_witness', 'zh_past_n_units', 'zh_future_n_units', 'zh_specific_night_ok',
+                     'zh_fixed_holidays_every_year', 'zh_variable_holidays_every_year', 'zh_holiday_year_truncated_witness',
+                     'zh_set_first_success']
 RULE = ('N in {1,2,3,7,30,365,1000,5000} (quick: 3 of them per spelling) × every spelling of every culture\'s duration '
         'unit_map; ordered pairs of absolute dates and of clock times in English; every range entity over the '
         'Python-supported DateTime Specs inputs of all cultures; non-trivial = distinct query that produced an entity of '
@@ -131,6 +137,7 @@ def correspond(ctx):
     durationcorr.unit(ctx)   # BaseDurationParser (all paths) / BaseSetParser against RTV.Model.Durations, 8 cultures
     period2corr.run(ctx)     # DateContext + the rest of BaseDatePeriodParser against RTV.Model.Periods2 (unit) + year-context pipeline oracles
     dtperiodcorr.run(ctx)    # BaseDateTimePeriodParser against RTV.Model.DtPeriod (unit) + triple oracle on its expression families
+    zhcorr2.run(ctx)         # Chinese time-period / date-time-period / set / holiday parsers against RTV.Model.ZhTimePeriod (unit + pipeline)
 
     # ------------------------------------------------------------- pipeline (a): N × spelling
     jobs, meta = [], []
